@@ -7,6 +7,7 @@ mod candle;
 mod convert;
 mod indicators;
 mod laws;
+mod memfmt;
 mod methods;
 mod num;
 mod params;
